@@ -16,7 +16,7 @@ RULE = (
     "case = state-machine history on a recipe-built element or model class: steps are reconfigurations "
     "(assign a keyword attribute incl. back to NotPassed; assign an element-valued keyword; reassign "
     ".properties; .properties[name] = Property(...); del .properties[name]; .properties.pop(name); "
-    ".properties[name].required = flag; .properties.update({...}) / setdefault) on any node of the tree, "
+    ".properties[name].required = flag; .properties.update({...}) / setdefault; .patternProperties[regex] = element / del, in place) on any node of the tree, "
     "interleaved with validate(value aimed at the current schema); after each validate the real "
     "object must agree (verdict kind and read-back result) with an element freshly built from the "
     "model configuration; non-trivial = history with a validate before and after a reconfiguration "
@@ -134,6 +134,21 @@ class Harness:
                     break
             else:
                 props.append(copy.deepcopy(p))
+        elif kind in ("pattern_setitem", "pattern_del"):
+            # the keyword's own dict is modified in place (no attribute assignment)
+            current = getattr(obj, "patternProperties", NotPassed())
+            if isinstance(current, NotPassed) or not isinstance(node.get("sub", {}).get("patternProperties"), dict):
+                return []
+            if kind == "pattern_setitem":
+                current[op["pattern"]] = R._build(copy.deepcopy(op["value"]), self.env)
+                node["sub"]["patternProperties"][op["pattern"]] = copy.deepcopy(op["value"])
+            else:
+                keys = sorted(node["sub"]["patternProperties"])
+                if not keys:
+                    return []
+                k = keys[op["index"] % len(keys)]
+                del current[k]
+                del node["sub"]["patternProperties"][k]
         elif kind in ("flag_prop", "pop_prop"):
             if node.get("props") is None or isinstance(obj.properties, NotPassed) or not node["props"]:
                 return []
@@ -237,6 +252,8 @@ class Machine(RuleBasedStateMachine):
             self._do({"op": "validate", "value": value})
 
     def _do(self, op):
+        if runner.shrink_budget_exceeded(self._sink):
+            return
         finished, fails = runner.time_limited(lambda: self.h.apply(op), self._stats, "step")
         if not finished:
             return
@@ -353,6 +370,24 @@ class Machine(RuleBasedStateMachine):
             return
         nid = data.draw(st.sampled_from(ids))
         self._do({"op": "del_prop", "node": nid, "index": data.draw(st.integers(0, 5))})
+        self._aimed_validate(data)
+
+    @rule(data=st.data())
+    def pattern_in_place(self, data):
+        idx = R.index(self.h.model)
+        ids = [i for i in self._nodes(kinds=("Element", "Object"))
+               if isinstance(idx[i].get("sub", {}).get("patternProperties"), dict)]
+        if not ids:
+            return
+        nid = data.draw(st.sampled_from(ids))
+        self.counter += 1
+        gen = fresh_gen(self.counter)
+        if data.draw(st.booleans()):
+            pats = sorted(idx[nid]["sub"]["patternProperties"]) + list(R.PATTERNS)
+            self._do({"op": "pattern_setitem", "node": nid, "pattern": data.draw(st.sampled_from(pats)),
+                      "value": data.draw(R._node(CFG, 1, gen))})
+        else:
+            self._do({"op": "pattern_del", "node": nid, "index": data.draw(st.integers(0, 5))})
         self._aimed_validate(data)
 
     @rule(data=st.data())
